@@ -483,7 +483,8 @@ theorem c09_translation_agrees_start (cfg : Cfg) (s : State) (evs : List Ev) : T
 theorem c09_translation_agrees_tick (cfg : Cfg) (s : State) (evs : List Ev) (c : Nat) : Tr.tick cfg s evs c = stepOut cfg s evs (.tick c) := by
   obtain ⟨ph, len, errs, ops, ren, rsn, st0, la, now⟩ := s
   cases ph <;>
-    simp [stepOut, step, tick, started, enterSenescence, depleted] <;> (repeat' split) <;> (try simp_all) <;> (try omega)
+    simp [stepOut, step, tick, started, enterSenescence, depleted, Int.max_def] <;> (repeat' split) <;> (try simp_all) <;>
+    (try omega)
 
 theorem c09_translation_agrees_record_error (cfg : Cfg) (s : State) (evs : List Ev) : Tr.record_error cfg s evs = stepOut cfg s evs .err := by
   obtain ⟨ph, len, errs, ops, ren, rsn, st0, la, now⟩ := s
@@ -504,8 +505,8 @@ theorem c09_translation_agrees_check_timeouts (cfg : Cfg) (s : State) (evs : Lis
 theorem c09_translation_agrees_renew (cfg : Cfg) (s : State) (evs : List Ev) (n : Option Nat) (r : Bool) :
     Tr.renew cfg s evs n r = stepOut cfg s evs (.renew n r) := by
   obtain ⟨ph, len, errs, ops, ren, rsn, st0, la, now⟩ := s
-  cases ph <;> cases r <;>
-    simp [stepOut, step, renew, pyOr_eq_renewAmount] <;> (repeat' split) <;> (try simp_all) <;> (try omega)
+  rcases n with _ | _ | a <;> cases ph <;> cases r <;>
+    simp [stepOut, step, renew, pyOr, renewAmount, Int.min_def] <;> (repeat' split) <;> (try simp_all) <;> (try omega)
 
 theorem c09_translation_agrees_trigger_apoptosis (cfg : Cfg) (s : State) (evs : List Ev) : Tr.trigger_apoptosis cfg s evs () = stepOut cfg s evs .apo := by
   obtain ⟨ph, len, errs, ops, ren, rsn, st0, la, now⟩ := s
